@@ -160,19 +160,66 @@ def run(ctx, rep, tier):
                       "strict exactly when the value expression reads the assigned output", "self-referential assignment is no longer strict")
         else:
             rep.ok("C01.e", f"{cl}.is_timing_strict", f"{cl}: idempotent template, strictness {declared}", nontrivial=False)
-    check_refusal(rep, model, "C01.e", "DFA.chain_actions_into", r"^action\.is_timing_strict\(\) and any\(\(?not x\.error_handling for x in finish\.transitions\)?\)$",
-                  "chaining a strict action into a re-entrant state is refused", "a strict action chained onto several incoming transitions of a state that can be re-entered runs more than once")
+    # the three sites that replicate a list of finish actions over several transitions judge the list *as a group* (C01.l) and refuse
+    GROUP = "timing_strict_actions"
+    sites = [
+        ("DFA.chain_actions_into", r"^action in strict_actions and any\(\(?not x\.error_handling for x in finish\.transitions\)?\)$", "strict_actions = timing_strict_actions(actions)",
+         "chaining a strict action into a re-entrant state is refused", "a strict action chained onto several incoming transitions of a state that can be re-entered runs more than once"),
+        ("RegexMatch.convert", r"^strict_actions and any\(\(?x\.transitions for x in self\.dfa_2\.finishing_states\)?\)$", "strict_actions = timing_strict_actions(self.finish_actions)",
+         "strict finish action on an open-ended regex is refused", "a strict finish action on a regex whose end states continue would run once per extra byte"),
+        ("CaseNode.convert", r"^len\(all_transitions_empty\) != 1 and strict_actions$", "strict_actions = timing_strict_actions(self.case_match_actions[true_backref])",
+         "strict action of an action-only clause reached by several transitions is refused", "a strict action-only clause attached to several transitions runs more than once"),
+    ]
+    for fq, rx, assign, what, msg in sites:
+        gs = check_refusal(rep, model, "C01.e", fq, rx, what, msg)
+        hits = model.find(fq, assign)
+        rep.check(bool(hits) and bool(gs) and all(h[0].lineno < g.lineno for h in hits for g in gs), "C01.l", fq, f"the refused set is computed from the whole group: {assign}",
+                  f"{fq.split('.')[-1]} judges each action in isolation (or not from the list it replicates): a group in which a later action overwrites what an earlier one reads is "
+                  "repeated once per entering transition (`s += /x+/; n = [s.len]; delete s;` leaves n = 1 for \"xxx\")")
     fn = model.func("DFA.chain_actions_into")
-    g1 = find_ifs(fn, r"is_timing_strict")
+    g1 = find_ifs(fn, r"strict_actions|is_timing_strict")
     if g1:
         rep.check(bool(g1[0].orelse) and "trans.attach(action)" in ast.unparse(g1[0].orelse[0]), "C01.e", "DFA.chain_actions_into", "otherwise the action is attached (appended) to the incoming transition",
                   "non-strict attach arm changed")
-    check_refusal(rep, model, "C01.e", "RegexMatch.convert", r"^any\(\(?x\.is_timing_strict\(\) for x in self\.finish_actions\)?\) and any\(\(?x\.transitions for x in self\.dfa_2\.finishing_states\)?\)$",
-                  "strict finish action on an open-ended regex is refused", "a strict finish action on a regex whose end states continue would run once per extra byte")
-    check_refusal(rep, model, "C01.e", "CaseNode.convert", r"^len\(all_transitions_empty\) != 1 and any\(\(?x\.is_timing_strict\(\) for x in self\.case_match_actions\[true_backref\]\)?\)$",
-                  "strict action of an action-only clause reached by several transitions is refused", "a strict action-only clause attached to several transitions runs more than once")
+    rep.check(model.has("DFA.chain_actions_into", "actions = list(actions)\nstrict_actions = timing_strict_actions(actions)"), "C01.l", "DFA.chain_actions_into",
+              "the action iterable is materialised before it is judged and replicated", "an iterator consumed by the group test leaves nothing to attach")
     raised = ast.unparse(model.func("DFA.chain_actions_into")) + ast.unparse(model.func("RegexMatch.convert")) + ast.unparse(model.func("CaseNode.convert"))
     rep.check(raised.count("raise UnableToScheduleActionError(") == 3, "C01.e", "UnableToScheduleActionError", "raised at the three multi-attach sites", "scheduling refusals changed")
+
+    # ------------------------------------------------------------------ C01.l group strictness
+    rep.rule("C01.l", "a replicated group of finish actions is refused when an action reads an output that it or a later action of the group modifies; reads()/modifies() cover every expression / output of each action class")
+    if GROUP not in model.functions:
+        rep.bad("C01.l", GROUP, "group strictness", "finish-action groups are judged per action only: write-after-read inside a replicated group is accepted")
+    else:
+        ok = model.has(GROUP, "for i, action in enumerate(actions):\n    if action.is_timing_strict():\n        strict.append(action)\n        continue\n    ...") and \
+            model.has(GROUP, "modified_later = [out for later in actions[i:] for sub in later.all_subactions() for out in sub.modifies()]") and \
+            model.has(GROUP, "if any((out in modified_later for out in action.reads())):\n    ...\n    strict.append(action)") and model.has(GROUP, "return strict") and \
+            model.has(GROUP, "actions = list(actions)")
+        rep.check(ok, "C01.l", GROUP, "strict = individually strict + those reading what they or a later action (sub-actions included) modify", "group strictness computation changed: a write-after-read inside a "
+                  "replicated group (later action, or the action itself, modifies what this one reads) must make the reader strict")
+    for cl in [c for c in model.concrete_subclasses("Action") if c != "Action"]:
+        ci = model.classes[cl]
+        init = ci.methods.get("__init__")
+        params = {a.arg: (ast.unparse(a.annotation) if a.annotation is not None else "") for a in init.args.args[1:]} if init is not None else {}
+        o, cst = model.const_return(cl, "is_timing_strict")
+        always = isinstance(cst, ast.Constant) and cst.value is True
+        exprs = [pn for pn, an in params.items() if "IntegerExpr" in an or "DFCondition" in an]
+        outs = [pn for pn, an in params.items() if "OutputStorage" in an]
+        ro, rf = model.resolve_method(cl, "reads")
+        if exprs and not always:
+            rsrc = ast.unparse(rf) if rf is not None else ""
+            if cl == "ConditionalAction":
+                okr = ro == cl and model.has("ConditionalAction.reads", "for cond in self.conditions:\n    if isinstance(cond, IntegerCondition):\n        result.extend(cond.expr.accesses())") and \
+                    model.has("ConditionalAction.reads", "for act in self.embeds():\n    result.extend(act.reads())") and model.has("ConditionalAction.reads", "return result")
+            else:
+                okr = ro == cl and all(re.search(r"self\.%s\.accesses\(\)" % re.escape(e), rsrc) for e in exprs)
+            rep.check(okr, "C01.l", f"{cl}.reads", f"{cl}: reads() covers {exprs}", f"{cl} evaluates {exprs} but reads() (resolved in {ro}) does not report what they access: the group test cannot see the hazard")
+        if outs:
+            mo, mf = model.resolve_method(cl, "modifies")
+            okm = mf is not None and all(f"self.{o_}" in ast.unparse(mf) for o_ in outs)
+            rep.check(okm, "C01.l", f"{cl}.modifies", f"{cl}: modifies() reports {outs}", f"{cl} writes {outs} but modifies() (resolved in {mo}) does not report it")
+    rep.check(model.has("Action.all_subactions", "for i in self.embeds():\n    children.extend(i.all_subactions())") and model.has("ConditionalAction.embeds", "return list(itertools.chain(*self.sub_actions.values()))"),
+              "C01.l", "Action.all_subactions", "sub-actions of conditional actions are visible to the group test", "embedded actions are no longer enumerated")
 
     # ------------------------------------------------------------------ C01.f break agreement
     rep.rule("C01.f", "break: loop conversion reroutes to the loop's end state; BreakAction declares that state; its template runs the after-break actions, then stores that state")
